@@ -248,11 +248,25 @@ class WriteUint64(Contract):
 
     def ensures(self, c, old, result, file, value):
         app = c.appended(old, file)
+        mode = getattr(getattr(c, "eng", None), "ctx_mode", None)
+        if mode == "prove":
+            c.assume(SP.reveal_number(app, 0))  # definition of the opaque NUMBER functions at (app, 0)
+            return [
+                ("appends", L(app) >= 1),
+                ("at-most-9-bytes", L(app) <= 9),
+                ("length-announced", L(app) == SP.number_len(app, 0)),
+                ("decodes-to-value", SP.number_value(app, 0) == value),
+                ("opaque-number", And(SP.NL(app, 0) == L(app), SP.NV(app, 0) == value)),
+            ]
+        if mode == "assume" and getattr(c.eng.contract, "opaque_numbers", False):
+            # callers that reason about lists of NUMBERs use the opaque form only (EUF + linear arithmetic)
+            return [("appends", And(L(app) >= 1, L(app) <= 9)), ("opaque-number", And(SP.NL(app, 0) == L(app), SP.NV(app, 0) == value))]
         return [
             ("appends", L(app) >= 1),
             ("at-most-9-bytes", L(app) <= 9),
             ("length-announced", L(app) == SP.number_len(app, 0)),
             ("decodes-to-value", SP.number_value(app, 0) == value),
+            ("opaque-number", And(SP.NL(app, 0) == L(app), SP.NV(app, 0) == value)),
         ]
 
 
